@@ -128,12 +128,19 @@ var extraBlockShapes = []blockShape{
 	{"17-256:d65", "17-256", "fill", 65},
 	{"17-256:d128", "17-256", "fill", 128},
 	{"17-256:d129", "17-256", "fill", 129},
+	// a container whose palette entry 0 is NOT registry id 0 (installed with a non-air default, as a section loaded from
+	// a save whose palette starts with stone), grown through every representation while 3/4 of the cells keep entry 0
+	{"17-256:ctor+d17", "17-256", "ctorfill", 17},
+	{"17-256:ctor+d256", "17-256", "ctorfill", 256},
+	{"ge257:ctor+d300", "ge257", "ctorfill", 300},
 }
 
 var extraBiomeShapes = []biomeShape{
 	{"2-8:d3", "2-8", "fill", 3},
 	{"2-8:d4", "2-8", "fill", 4},
 	{"2-8:d5", "2-8", "fill", 5},
+	{"2-8:ctor+d8", "2-8", "ctorfill", 8}, // biome entry 0 is not biome 0; half of the cells keep it
+	{"ge9:ctor+d12", "ge9", "ctorfill", 12},
 }
 
 // findBlockShape returns the shape and its index in the rotation list (-1: an extra shape).
@@ -471,6 +478,24 @@ func buildInto(cs *Case, b *built) {
 				ms.blocks[p] = v
 			}
 			b.setOps += 4096
+		case "ctorfill":
+			v0 := singleBlockValue(s + 100*cs.Salt)
+			if airByName[v0] || v0 == 0 {
+				v0 = idStone
+			}
+			sec.States = level.NewStatesPaletteContainer(16*16*16, level.BlocksState(v0))
+			sec.BlockCount = 4096 // a caller who installs a container states its count
+			for i := range ms.blocks {
+				ms.blocks[i] = v0
+			}
+			pool := blockPool(s, sh.D, cs.Salt)
+			for k := 0; k < 1024; k++ { // one cell in four; the others keep palette entry 0
+				p := permBlock(k * 4)
+				v := pool[k%len(pool)]
+				sec.SetBlock(p, level.BlocksState(v))
+				ms.blocks[p] = v
+			}
+			b.setOps += 1024
 		case "fill":
 			pool := blockPool(s, sh.D, cs.Salt)
 			for k := 0; k < 4096; k++ {
@@ -504,6 +529,22 @@ func buildInto(cs *Case, b *built) {
 			sec.Biomes = level.NewBiomesPaletteContainer(4*4*4, level.BiomesState(v))
 			for i := range ms.biomes {
 				ms.biomes[i] = v
+			}
+		case "ctorfill":
+			v0 := biomePool(s+5*cs.Salt, 1)[0]
+			if v0 == 0 {
+				v0 = 1
+			}
+			sec.Biomes = level.NewBiomesPaletteContainer(4*4*4, level.BiomesState(v0))
+			for i := range ms.biomes {
+				ms.biomes[i] = v0
+			}
+			pool := biomePool(s+5*cs.Salt, bs.D)
+			for k := 0; k < 32; k++ { // every other cell keeps palette entry 0
+				p := permBiome(k * 2)
+				v := pool[k%len(pool)]
+				sec.Biomes.Set(p, level.BiomesState(v))
+				ms.biomes[p] = v
 			}
 		case "fill":
 			pool := biomePool(s+5*cs.Salt, bs.D)
